@@ -411,6 +411,63 @@ fn op_filt(toks: &[Tok], prop: &str) -> Outcome {
     Outcome { result: w.0, oracle }
 }
 
+/// 30 FILT_HAND: like 26, but the processed configuration's minimum level is set by hand (this is the only
+/// way to an `Invalid` minimum; the conversions never produce one)
+fn op_filt_hand(toks: &[Tok], prop: &str) -> Outcome {
+    let mut r = R::new(toks);
+    let m = r.msg();
+    let f = r.filter();
+    let forced = if r.n() == 0 { None } else { Some(r.log_level()) };
+    let suffix = r.b();
+    let mut w = W::new();
+    let wf = crate::genmsg::wf_message(&m);
+    let mut oracle = vec![];
+    w.bool(wf);
+    match guarded(|| m.as_bytes()) {
+        None => w.n(1),
+        Some(bytes) => {
+            w.n(0);
+            let mut buf = bytes.clone();
+            buf.extend_from_slice(&suffix);
+            let mut pf: ProcessedDltFilterConfig = (&f).into();
+            pf.min_log_level = forced;
+            let sh = m.storage_header.is_some();
+            let res = parse_owned(&buf, Some(&pf), sh);
+            w_presult(&mut w, &res);
+            // the level table of the property for hand-built configurations, when no other criterion is configured
+            if prop == "C09" && wf && f.app_ids.is_none() && f.context_ids.is_none() && f.ecu_ids.is_none() {
+                let num = |l: &LogLevel| match l {
+                    LogLevel::Fatal => Some(1u8),
+                    LogLevel::Error => Some(2),
+                    LogLevel::Warn => Some(3),
+                    LogLevel::Info => Some(4),
+                    LogLevel::Debug => Some(5),
+                    LogLevel::Verbose => Some(6),
+                    LogLevel::Invalid(_) => None,
+                };
+                let want_drop = match (m.extended_header.as_ref().map(|x| &x.message_type), &forced) {
+                    (Some(MessageType::Log(n)), Some(min)) => match (num(n), num(min)) {
+                        (Some(a), Some(b)) => b < a,
+                        (Some(_), None) => true,
+                        (None, Some(_)) => false,
+                        (None, None) => match (n, min) {
+                            (LogLevel::Invalid(a), LogLevel::Invalid(b)) => a < b,
+                            _ => false,
+                        },
+                    },
+                    _ => false,
+                };
+                let dropped = matches!(&res, Some(Ok((_, ParsedMessage::FilteredOut(_)))));
+                let kept = matches!(&res, Some(Ok((_, ParsedMessage::Item(_)))));
+                if (want_drop && !dropped) || (!want_drop && !kept) {
+                    oracle.push(("hand_built_level_table".into(), format!("minimum {:?}: expected {}", forced, if want_drop { "dropped" } else { "kept" })));
+                }
+            }
+        }
+    }
+    Outcome { result: w.0, oracle }
+}
+
 fn op_filtercfg(toks: &[Tok], prop: &str) -> Outcome {
     let mut r = R::new(toks);
     let f = r.filter();
@@ -535,6 +592,7 @@ pub fn run_case2(prop: &str, op: u32, toks: &[Tok]) -> Outcome {
         24 => op_junk(toks, prop),
         25 => op_parse_all(toks, prop),
         26 => op_filt(toks, prop),
+        30 => op_filt_hand(toks, prop),
         27 => op_filtercfg(toks, prop),
         28 => op_stable(toks, prop),
         29 => op_streamj(toks, prop),
